@@ -353,3 +353,700 @@ Section Eval2.
       destruct (typed_exec2 _ _ _ _ SO Es) as (r' & -> & SO'). eapply IH; eassumption.
   Qed.
 End Eval2.
+
+(* ------------------------------------------------------------------ accepted => typed *)
+
+Lemma nth_Forall2 {A B} (P : A -> B -> Prop) : forall l l',
+  length l = length l' -> (forall n x y, nth_error l n = Some x -> nth_error l' n = Some y -> P x y) -> Forall2 P l l'.
+Proof.
+  induction l as [|a l IH]; intros [|b l'] Hl H; cbn in Hl; try discriminate; constructor.
+  - apply (H 0%nat); reflexivity.
+  - apply IH; [lia|]. intros n x y Hx Hy. apply (H (S n)); assumption.
+Qed.
+
+Lemma Forall2_nth {A B} (P : A -> B -> Prop) l l' :
+  Forall2 P l l' -> length l = length l' /\ (forall n x y, nth_error l n = Some x -> nth_error l' n = Some y -> P x y).
+Proof.
+  induction 1 as [|a b l l' Hab H IH]; [split; [reflexivity|intros [|n] x y Hx; discriminate]|].
+  destruct IH as [IH1 IH2]. split; [cbn; lia|]. intros [|n] x y Hx Hy; cbn [nth_error] in Hx, Hy.
+  - injection Hx as <-. injection Hy as <-. exact Hab.
+  - eapply IH2; eassumption.
+Qed.
+
+Lemma Forall2_imp {A B} (P Q : A -> B -> Prop) l l' : (forall a b, P a b -> Q a b) -> Forall2 P l l' -> Forall2 Q l l'.
+Proof. intros H. induction 1; constructor; auto. Qed.
+
+Section Accepted2.
+  Variable kinds : PositiveMap.t varkind.
+  Variable g : nat.
+  Notation G := (gfix g).
+  Notation afix := (afix kinds G).
+  Let PG : gpres G := gfix_pres g.
+  Let PA f : apres (afix f) := afix_pres kinds G PG f.
+
+  (* the class c has the type t *)
+  Definition has_ty (s : st) (c : tyid) (t : ty2) : Prop :=
+    match t with
+    | Base b => head s c = Some (bty_head b)
+    | Tup ts => exists ys, head s c = Some (HTuple ys) /\ Forall2 (fun y b => head s y = Some (bty_head b)) ys ts
+    end.
+
+  Lemma has_ty_ext s s' c t : ext s s' -> has_ty s c t -> has_ty s' c t.
+  Proof.
+    intros E H. destruct t as [b|ts]; cbn [has_ty] in *; [exact (head_keep _ _ _ _ E H (rigid_bty b))|].
+    destruct H as (ys & Hh & Hys). pose proof E as (_ & _ & _ & E4 & _).
+    destruct (E4 _ _ Hh eq_refl) as (h' & Hh' & Sh). destruct h'; try discriminate Sh. cbn [same_shape] in Sh.
+    apply PeanoNat.Nat.eqb_eq in Sh. exists ts0. split; [assumption|].
+    destruct (Forall2_nth _ _ _ Hys) as [Hl Hn]. apply nth_Forall2; [lia|].
+    intros n y' b Hy' Hb. destruct (nth_error_same_length ts0 ys n y' (eq_sym Sh) Hy') as [y Hy].
+    apply (kid_keep s s' c (HTuple ys) (HTuple ts0) (KElem n) y y'); try assumption; try reflexivity; [|apply rigid_bty].
+    eapply Hn; eassumption.
+  Qed.
+
+  Lemma has_ty_head s a b t : head s a = head s b -> has_ty s a t -> has_ty s b t.
+  Proof. intros E H. destruct t; cbn [has_ty] in *; [congruence|]. destruct H as (ys & Hh & Hys). exists ys. split; congruence. Qed.
+
+  Lemma has_ty_inj s c t t' : has_ty s c t -> has_ty s c t' -> t = t'.
+  Proof.
+    destruct t as [b|ts], t' as [b'|ts']; cbn [has_ty]; intros H H'.
+    - rewrite H in H'. injection H' as H'. apply bty_head_inj in H'. congruence.
+    - destruct H' as (ys & Hh & _). rewrite H in Hh. destruct b; discriminate.
+    - destruct H as (ys & Hh & _). rewrite H' in Hh. destruct b'; discriminate.
+    - destruct H as (ys & Hh & Hys). destruct H' as (ys' & Hh' & Hys'). rewrite Hh in Hh'. injection Hh' as <-. f_equal.
+      clear Hh. revert ts' Hys'. induction Hys as [|y b ys ts Hy Hys IH]; intros ts' Hys'; inversion Hys' as [|y0 b' ys0 ts0 Hy' Hys0]; subst;
+        [reflexivity|].
+      f_equal; [|now apply IH]. rewrite Hy in Hy'. injection Hy' as Hy'. now apply bty_head_inj.
+  Qed.
+
+  (* two classes that unify have the same type *)
+  Lemma unify_has_ty g' sp a b s r s' ta tb :
+    wf s -> unify (gfix g') sp a b s = Ok (r, s') -> has_ty s a ta -> has_ty s b tb ->
+    wf s' /\ ext s s' /\ ta = tb /\ has_ty s' r ta.
+  Proof.
+    intros W H Ha Hb. destruct (unify_result_head _ _ _ _ _ _ _ W H) as (W' & E' & Hr & Heq).
+    split; [assumption|]. split; [assumption|].
+    pose proof (has_ty_ext _ _ _ _ E' Ha) as Ha'. pose proof (has_ty_ext _ _ _ _ E' Hb) as Hb'.
+    split; [exact (has_ty_inj _ _ _ _ (has_ty_head _ _ _ _ Heq Ha') Hb')|]. exact (has_ty_head _ _ _ _ (eq_sym Hr) Ha').
+  Qed.
+
+  Definition env_ok2 (E : tenv2) (s : st) : Prop := forall x t, tlookup2 E x = Some t -> has_ty s (N.succ_pos x) t.
+
+  Lemma env_ok2_ext E s s' : wf s -> ext s s' -> env_ok2 E s -> env_ok2 E s'.
+  Proof. intros _ X H x t L. exact (has_ty_ext _ _ _ _ X (H _ _ L)). Qed.
+
+  Definition sound2 (E : tenv2) (e : expr) (ot : option ty2) : Prop :=
+    forall f ctx s r s', wf s -> env_ok2 E s -> r_expr (afix f) e ctx s = Ok (r, s') ->
+      wf s' /\ ext s s' /\ exists t, ot = Some t /\ has_ty s' (snd r) t.
+
+  Lemma sound2_weaken E e X Y : (forall t, X = Some t -> Y = Some t) -> sound2 E e X -> sound2 E e Y.
+  Proof. intros H S0 f ctx s r s' W HI Hr. destruct (S0 _ _ _ _ _ W HI Hr) as (W' & E' & (t & Ht & Hh)). eauto 8. Qed.
+
+  Definition proj (ot : option ty2) : option bty := match ot with Some (Base t) => Some t | _ => None end.
+
+  Lemma down E e ot : (forall t, ot = Some t -> exists b, t = Base b) -> sound2 E e ot -> sound_expr kinds g (env_ok2 E) e (proj ot).
+  Proof.
+    intros Hb S0 f ctx s r s' W HI Hr. destruct (S0 _ _ _ _ _ W HI Hr) as (W' & E' & (t & -> & Hh)).
+    destruct (Hb _ eq_refl) as [b ->]. split; [assumption|]. split; [assumption|]. exists b. auto.
+  Qed.
+
+  Lemma up E e ob : sound_expr kinds g (env_ok2 E) e ob -> sound2 E e (option_map Base ob).
+  Proof.
+    intros S0 f ctx s r s' W HI Hr. destruct (S0 _ _ _ _ _ W HI Hr) as (W' & E' & (b & -> & Hh)).
+    split; [assumption|]. split; [assumption|]. exists (Base b). auto.
+  Qed.
+
+  (* ---- shapes and types agree *)
+  Definition shapes (E : tenv2) : senv := map (fun xt => (fst xt, shape_of (snd xt))) E.
+
+  Lemma shlookup_shapes E x : shlookup (shapes E) x = option_map shape_of (tlookup2 E x).
+  Proof. induction E as [|[y t] E IH]; [reflexivity|]. cbn [shapes map shlookup tlookup2 fst snd]. destruct (N.eqb x y); [reflexivity|exact IH]. Qed.
+
+  Lemma shape_ty E : forall e sh t, shp (shapes E) e = Some sh -> ty2of E e = Some t -> sh = shape_of t.
+  Proof.
+    induction e as [z|r|s|b|op a IHa b IHb|op a IHa|c IHc a IHa b IHb|x|es|e IHe i]; intros sh t Hs Ht; cbn [shp ty2of] in *.
+    - injection Hs as <-. now injection Ht as <-.
+    - injection Hs as <-. now injection Ht as <-.
+    - injection Hs as <-. now injection Ht as <-.
+    - injection Hs as <-. now injection Ht as <-.
+    - destruct (ty2of E a) as [ta|]; [|discriminate]. destruct (ty2of E b) as [tb|]; [|discriminate].
+      assert (sh = SB).
+      { destruct op; try discriminate; destruct (shp (shapes E) a) as [[|n]|]; try discriminate;
+          destruct (shp (shapes E) b) as [[|m]|]; try discriminate; try (now injection Hs);
+          match type of Hs with (if ?c then _ else _) = _ => destruct c end; try discriminate; now injection Hs. }
+      subst sh. destruct ta, tb; cbn [bin_ty2] in Ht; try discriminate.
+      + destruct (bin_ty op t0 t1); [|discriminate]. now injection Ht as <-.
+      + destruct (cmp_like op && cmp_all op ts ts0); [|discriminate]. now injection Ht as <-.
+    - destruct (shp (shapes E) a) as [[|n]|]; try discriminate. injection Hs as <-.
+      destruct (ty2of E a) as [[ta|]|]; try discriminate. destruct (un_ty op ta); [|discriminate]. now injection Ht as <-.
+    - destruct (shp (shapes E) c) as [[|n]|]; try discriminate.
+      destruct (shp (shapes E) a) as [sa|] eqn:Ea; [|discriminate]. destruct (shp (shapes E) b) as [sb|]; [|discriminate].
+      destruct (shape_eqb sa sb); [|discriminate]. injection Hs as <-.
+      destruct (ty2of E c) as [[[]|]|]; try discriminate. destruct (ty2of E a) as [ta|] eqn:Ta; [|discriminate].
+      destruct (ty2of E b) as [tb|]; [|discriminate]. destruct (ty2_eqb ta tb); [|discriminate]. injection Ht as <-.
+      now apply IHa.
+    - rewrite shlookup_shapes, Ht in Hs. now injection Hs as <-.
+    - match type of Hs with (if ?c then _ else _) = _ => destruct c end; [|discriminate]. injection Hs as <-.
+      match type of Ht with option_map Tup ?gg = _ => destruct gg as [ts|] eqn:Eg end; [|discriminate]. injection Ht as <-.
+      cbn [shape_of]. f_equal. revert ts Eg. induction es as [|x es IH]; intros ts Eg; [now injection Eg as <-|].
+      destruct (ty2of E x) as [[tx|]|]; try discriminate.
+      match type of Eg with match ?gg with _ => _ end = _ => destruct gg as [ts'|] eqn:Eg' end; [|discriminate].
+      injection Eg as <-. cbn [length]. f_equal. now apply IH.
+    - destruct (shp (shapes E) e) as [[|n]|]; try discriminate. destruct (Nat.ltb i n); [|discriminate]. injection Hs as <-.
+      destruct (ty2of E e) as [[|ts]|]; try discriminate. destruct (nth_error ts i); [|discriminate]. now injection Ht as <-.
+  Qed.
+
+  Lemma base_of_shape E e t : shp (shapes E) e = Some SB -> ty2of E e = Some t -> exists b, t = Base b.
+  Proof. intros Hs Ht. pose proof (shape_ty E e _ _ Hs Ht) as X. destruct t; [eauto|discriminate]. Qed.
+
+  Lemma tup_of_shape E e n t : shp (shapes E) e = Some (ST n) -> ty2of E e = Some t -> exists ts, t = Tup ts.
+  Proof. intros Hs Ht. pose proof (shape_ty E e _ _ Hs Ht) as X. destruct t; [discriminate|eauto]. Qed.
+
+  (* ---- the value of a read *)
+  Lemma tail_noncopy (er : option tyid) (ex : tyid) s r s' t :
+    has_ty s ex t ->
+    (t0 <- find_type ex ;;
+     match t0 with
+     | HFn _ _ _ => c <- copy G ex ;; ret (er, c)
+     | _ => ret (er, ex)
+     end) s = Ok (r, s') ->
+    r = (er, ex) /\ s' = s.
+  Proof.
+    intros Hh H. destruct t as [b|ts]; cbn [has_ty] in Hh.
+    - exact (tail_base g _ _ _ _ _ _ Hh H).
+    - destruct Hh as (ys & Hh & _). rewrite (bind_ok _ _ _ _ _ (find_type_ok _ _ _ Hh)) in H. injection H as <- <-. auto.
+  Qed.
+
+  Lemma sound_read2 E x t sp : tlookup2 E x = Some t -> sound2 E (ERead x sp) (Some t).
+  Proof.
+    intros L f ctx s r s' W HI H. destruct f as [|f]; [discriminate|]. cbn [Tc.afix astep r_expr] in H. unfold expr_body in H.
+    apply bind_inv in H as ([er ex] & s1 & H1 & H). cbv beta iota in H1.
+    apply bind_inv in H1 as (tn & s2 & Ht & H1). apply is_type_name_inv in Ht as [-> _].
+    destruct tn; [discriminate|].
+    apply bind_inv in H1 as (k & s3 & Hk & H1).
+    assert (s3 = s) by (unfold var_kind in Hk; destruct (PositiveMap.find _ kinds); [now injection Hk|discriminate]).
+    subst s3. destruct (inside_pure ctx && negb (immutable k)); [discriminate|].
+    apply bind_inv in H1 as (t0 & s4 & Hvt & H1). apply ShapesDecl_var_ty_inv in Hvt as [-> ->].
+    injection H1 as <- <- <-.
+    pose proof (HI _ _ L) as Hh. destruct (tail_noncopy _ _ _ _ _ _ Hh H) as [-> ->].
+    split; [assumption|]. split; [apply ext_refl|]. eauto.
+  Qed.
+
+  (* ---- what a successful check_constraints tells about one constraint of the class *)
+  Lemma iterM_in_inv {A} (fn : A -> M unit) l x s u s' :
+    (forall y, pres (fn y)) -> wf s -> In x l -> iterM fn l s = Ok (u, s') ->
+    exists s1 s2, wf s1 /\ ext s s1 /\ fn x s1 = Ok (tt, s2) /\ wf s2 /\ ext s1 s2 /\ wf s' /\ ext s2 s'.
+  Proof.
+    intros P. revert s. induction l as [|p l IH]; intros s W Hin H; [destruct Hin|]. cbn [iterM] in H.
+    apply bind_inv in H as ([] & s0 & H1 & H). destruct (P p _ _ _ W H1) as [W0 E0].
+    destruct Hin as [->|Hin].
+    - destruct (pres_iterM fn l P _ _ _ W0 H) as [W' E'].
+      exists s, s0. repeat (split; [first [assumption|apply ext_refl]|]). assumption.
+    - destruct (IH _ W0 Hin H) as (s1 & s2 & X1 & X2 & X3 & X4 & X5 & X6 & X7).
+      exists s1, s2. split; [assumption|]. split; [eapply ext_trans; eassumption|]. auto.
+  Qed.
+
+  Lemma check_ok_con sp a c s u s' :
+    wf s -> has_con s a c -> g_check G sp a s = Ok (u, s') ->
+    exists g' s1 s2, wf s1 /\ ext s s1 /\ check_one (gfix g') sp a c s1 = Ok (tt, s2) /\ wf s2 /\ ext s1 s2 /\ wf s' /\ ext s2 s'.
+  Proof.
+    intros W (r & n & Hr & Hn & Hc) H. destruct g as [|g0]; [discriminate|].
+    cbn [gfix gstep g_check] in H. unfold check_body in H.
+    assert (Fn : find_node a s = Ok (n, s)).
+    { unfold find_node, find, get_node, bind, ret. unfold rep, lk in *.
+      destruct (PositiveMap.find a (nodes s)) as [x|]; [|discriminate]. cbn in Hr. injection Hr as ->.
+      rewrite Hn. reflexivity. }
+    rewrite (bind_ok _ _ _ _ _ Fn) in H.
+    destruct (iterM_in_inv (check_one (gfix g0) sp a) (ncons n) c s u s') as (s1 & s2 & X);
+      [intros y; apply pres_check_one, gfix_pres|assumption|assumption|assumption|].
+    exists g0, s1, s2. exact X.
+  Qed.
+
+  (* ---- two known leaf types pass the ordering check only if they are comparable *)
+  Lemma arith_ok_base g' sp a b s u s' ta tb :
+    head s a = Some (bty_head ta) -> head s b = Some (bty_head tb) -> wf s ->
+    g_arith (gfix g') ACmp sp a b s = Ok (u, s') -> bin_ty Less ta tb = Some TB.
+  Proof.
+    intros Ha Hb W H. destruct (arith_base_ok ACmp (bty_head ta) (bty_head tb)) eqn:Bk.
+    - destruct ta, tb; cbn in Bk |- *; congruence.
+    - exfalso. eapply (arith_rejects g' ACmp sp a b s _ _ W Ha Hb); eauto using rigid_bty.
+  Qed.
+
+  Lemma iter2_cmp g' sp : forall xs ys ts ts' s u s',
+    wf s -> Forall2 (fun y b => head s y = Some (bty_head b)) xs ts -> Forall2 (fun y b => head s y = Some (bty_head b)) ys ts' ->
+    iter2 (g_arith (gfix g') ACmp sp) xs ys s = Ok (u, s') -> length xs = length ys -> cmp_all Less ts ts' = true.
+  Proof.
+    induction xs as [|x xs IH]; intros [|y ys] ts ts' s u s' W Hx Hy H Hl; cbn in Hl; try discriminate;
+      inversion Hx; inversion Hy; subst; [reflexivity|].
+    cbn [iter2] in H. apply bind_inv in H as ([] & s1 & H1 & H).
+    destruct (gp_arith _ (gfix_pres g') ACmp sp x y _ _ _ W H1) as [W1 E1].
+    cbn [cmp_all]. erewrite arith_ok_base; try eassumption. cbn [andb].
+    eapply IH; [exact W1| | |exact H|lia].
+    - eapply Forall2_imp; [|eassumption]. intros c b0 Hc. exact (head_keep _ _ _ _ E1 Hc (rigid_bty b0)).
+    - eapply Forall2_imp; [|eassumption]. intros c b0 Hc. exact (head_keep _ _ _ _ E1 Hc (rigid_bty b0)).
+  Qed.
+
+  Lemma arith_ok_tuple g' sp a b s u s' ts ts' :
+    has_ty s a (Tup ts) -> has_ty s b (Tup ts') -> wf s ->
+    g_arith (gfix g') ACmp sp a b s = Ok (u, s') -> cmp_all Less ts ts' = true.
+  Proof.
+    intros (xs & Ha & Hxs) (ys & Hb & Hys) W H. destruct g' as [|g']; [discriminate|].
+    cbn [gfix gstep g_arith] in H. unfold arith_body in H.
+    rewrite (bind_ok _ _ _ _ _ (find_type_ok _ _ _ Ha)), (bind_ok _ _ _ _ _ (find_type_ok _ _ _ Hb)) in H.
+    cbn [is_unknown orb arith_base_ok] in H.
+    destruct (Nat.eqb (length xs) (length ys)) eqn:El; [|discriminate]. apply PeanoNat.Nat.eqb_eq in El.
+    eapply iter2_cmp; eassumption.
+  Qed.
+
+  Lemma cmp_all_ops op ts ts' : (op = Greater \/ op = Less) -> cmp_all Less ts ts' = true -> cmp_all op ts ts' = true.
+  Proof. intros [-> | ->] H; [|exact H]. revert ts' H. induction ts as [|x ts IH]; intros [|y ts'] H; cbn in *; try discriminate; auto.
+    apply andb_true_iff in H as [H1 H2]. rewrite (IH _ H2), andb_true_r. destruct x, y; cbn in *; congruence. Qed.
+
+  Lemma cmp_all_eq op t : (op = Equals \/ op = NotEquals \/ op = AssertEq) -> cmp_all op t t = true.
+  Proof. intros Hop. induction t as [|x t IH]; [reflexivity|]. cbn [cmp_all]. rewrite IH, andb_true_r.
+    destruct Hop as [->|[->| ->]]; destruct x; reflexivity. Qed.
+
+  (* ---- comparison of two tuples *)
+  Lemma sound_tuple_cmp E op a b oa ob sp :
+    cmp_like op = true ->
+    sound2 E a oa -> sound2 E b ob ->
+    (forall t, oa = Some t -> exists ts, t = Tup ts) -> (forall t, ob = Some t -> exists ts, t = Tup ts) ->
+    sound2 E (EBinOp op a b sp) (match oa, ob with Some ta, Some tb => bin_ty2 op ta tb | _, _ => None end).
+  Proof.
+    intros Hop Sa Sb Ta Tb f ctx s r s' W HI H. destruct f as [|f]; [discriminate|]. apply expr_inv in H. unfold expr_body in H.
+    apply bind_inv in H as ([er ex] & s1 & H1 & H).
+    assert (Hb : exists con, (con = CEqu /\ (op = Equals \/ op = NotEquals \/ op = AssertEq) \/ con = CCmp /\ (op = Greater \/ op = Less)) /\
+                             bin_op_ret G (afix f) sp ctx a b con HBool s = Ok ((er, ex), s1)).
+    { destruct op; try discriminate Hop; [exists CEqu|exists CEqu|exists CCmp|exists CCmp|exists CEqu]; split; auto 6. }
+    destruct Hb as (con & Hcon & Hb). clear H1.
+    unfold bin_op_ret in Hb. apply bind_inv in Hb as ([r0 x0] & s2 & Hb & Hp).
+    unfold bin_op in Hb.
+    apply bind_inv in Hb as ([ar x] & sa & Ha & Hb).
+    destruct (Sa _ _ _ _ _ W HI Ha) as (Wa & Ea & (ta & -> & Hx)). cbn [snd] in Hx.
+    apply bind_inv in Hb as ([br y] & sb & Hbb & Hb).
+    destruct (Sb _ _ _ _ _ Wa (env_ok2_ext _ _ _ W Ea HI) Hbb) as (Wb & Eb & (tb & -> & Hy)). cbn [snd] in Hy.
+    destruct (Ta _ eq_refl) as [tsa ->]. destruct (Tb _ eq_refl) as [tsb ->].
+    apply bind_inv in Hb as (u3 & s3 & H3 & Hb).
+    destruct (add_constraint_spec _ _ _ _ _ Wb H3) as (W3 & E3 & Hd3 & _ & C3 & _).
+    apply bind_inv in Hb as (u4 & s4 & H4 & Hb).
+    destruct (add_constraint_spec _ _ _ _ _ W3 H4) as (W4 & E4 & Hd4 & _ & C4 & K4).
+    apply bind_inv in Hb as (u5 & s5 & H5 & Hb).
+    destruct (check_ok_con _ _ _ _ _ _ W4 (K4 _ _ C3) H5) as (g' & s6 & s7 & W6 & E6 & Hc & W7 & E7 & W5 & E75).
+    apply bind_inv in Hb as (u6 & s8 & H8 & Hb).
+    destruct (gp_check G PG _ _ _ _ _ W5 H8) as [W8 E8].
+    apply bind_inv in Hb as (r' & s9 & H9 & Hb). injection Hb as <- <- <-.
+    assert (P9 : pres (unify_option G sp ar br)) by prs. destruct (P9 _ _ _ W8 H9) as [W9 E9].
+    apply bind_inv in Hp as (t & s10 & Hp & Hr). injection Hr as <- <- <-.
+    destruct (push_spec _ _ _ _ W9 Hp) as (W10 & E10 & Ht).
+    assert (Hx6 : has_ty s6 x (Tup tsa)).
+    { eapply has_ty_ext; [|exact Hx]. eapply ext_trans; [exact Eb|]. eapply ext_trans; [exact E3|]. eapply ext_trans; [exact E4|exact E6]. }
+    assert (Hy6 : has_ty s6 y (Tup tsb)).
+    { eapply has_ty_ext; [|exact Hy]. eapply ext_trans; [exact E3|]. eapply ext_trans; [exact E4|exact E6]. }
+    assert (Ty : bin_ty2 op (Tup tsa) (Tup tsb) = Some (Base TB)).
+    { cbn [bin_ty2]. rewrite Hop. cbn [andb].
+      destruct Hcon as [[-> Ho]|[-> Ho]]; cbn [check_one] in Hc.
+      - apply bind_inv in Hc as (ru & s11 & Hu & _).
+        destruct (unify_has_ty g' sp x y s6 ru s11 _ _ W6 Hu Hx6 Hy6) as (_ & _ & Eq & _). injection Eq as <-.
+        rewrite (cmp_all_eq op tsa Ho). reflexivity.
+      - rewrite (cmp_all_ops op tsa tsb Ho (arith_ok_tuple g' sp x y s6 tt s7 tsa tsb Hx6 Hy6 W6 Hc)). reflexivity. }
+    destruct (tail_base g _ _ _ _ _ TB Ht H) as [-> ->].
+    split; [assumption|]. split.
+    { eapply ext_trans; [exact Ea|]. eapply ext_trans; [exact Eb|]. eapply ext_trans; [exact E3|]. eapply ext_trans; [exact E4|].
+      eapply ext_trans; [exact E6|]. eapply ext_trans; [exact E7|]. eapply ext_trans; [exact E75|]. eapply ext_trans; [exact E8|].
+      eapply ext_trans; [exact E9|exact E10]. }
+    exists (Base TB). split; [exact Ty|exact Ht].
+  Qed.
+  (* ---- construction of a tuple *)
+  Fixpoint all_some (l : list (option bty)) : option (list bty) :=
+    match l with
+    | [] => Some []
+    | x :: r => match x, all_some r with Some t, Some ts => Some (t :: ts) | _, _ => None end
+    end.
+
+  Lemma mapM_tuple E sp ret0 f ctx : forall es obs s tys s',
+    wf s -> env_ok2 E s -> Forall2 (fun e ob => sound_expr kinds g (env_ok2 E) e ob) es obs ->
+    mapM (fun v => '(iret, t) <- r_expr (afix f) v ctx ;; unify_option G sp (Some ret0) iret ;;; ret t) es s = Ok (tys, s') ->
+    wf s' /\ ext s s' /\ exists ts, all_some obs = Some ts /\ Forall2 (fun y b => head s' y = Some (bty_head b)) tys ts.
+  Proof.
+    induction es as [|e es IH]; intros obs s tys s' W HI Hs H; inversion Hs as [|e0 ob es0 obs0 He Hes]; subst; cbn [mapM] in H.
+    - injection H as <- <-. split; [assumption|]. split; [apply ext_refl|]. exists []. split; [reflexivity|constructor].
+    - apply bind_inv in H as (y & s1 & H1 & H).
+      apply bind_inv in H1 as ([iret t] & s2 & Hr & H1).
+      destruct (He _ _ _ _ _ W HI Hr) as (W2 & E2 & (b & -> & Hb)). cbn [snd] in Hb.
+      apply bind_inv in H1 as (u & s3 & Hu & H1). injection H1 as <- <-.
+      assert (Pu : pres (unify_option G sp (Some ret0) iret)) by prs. destruct (Pu _ _ _ W2 Hu) as [W3 E3].
+      apply bind_inv in H as (ys & s4 & Hm & H). injection H as <- <-.
+      assert (E03 : ext s s3) by (eapply ext_trans; eassumption).
+      destruct (IH _ _ _ _ W3 (env_ok2_ext _ _ _ W E03 HI) Hes Hm) as (W4 & E4 & (ts & Hts & Hys)).
+      split; [assumption|]. split; [eapply ext_trans; eassumption|].
+      exists (b :: ts). cbn [all_some]. rewrite Hts. split; [reflexivity|]. constructor; [|assumption].
+      eapply head_keep; [exact E4| |apply rigid_bty]. exact (head_keep _ _ _ _ E3 Hb (rigid_bty b)).
+  Qed.
+
+  Lemma sound_tuple E es obs sp :
+    Forall2 (fun e ob => sound_expr kinds g (env_ok2 E) e ob) es obs ->
+    sound2 E (ECollection CTuple es sp) (option_map Tup (all_some obs)).
+  Proof.
+    intros Hs f ctx s r s' W HI H. destruct f as [|f]; [discriminate|]. apply expr_inv in H. unfold expr_body in H.
+    apply bind_inv in H as ([er ex] & s1 & H1 & H). cbv beta iota in H1.
+    apply bind_inv in H1 as (ret0 & s2 & Hp & H1). destruct (push_spec _ _ _ _ W Hp) as (W2 & E2 & _).
+    apply bind_inv in H1 as (tys & s3 & Hm & H1).
+    destruct (mapM_tuple E sp ret0 f ctx _ _ _ _ _ W2 (env_ok2_ext _ _ _ W E2 HI) Hs Hm) as (W3 & E3 & (ts & Hts & Hys)).
+    apply bind_inv in H1 as (t & s4 & Hp4 & H1). injection H1 as <- <- <-.
+    destruct (push_spec _ _ _ _ W3 Hp4) as (W4 & E4 & Ht).
+    assert (HT : has_ty s4 t (Tup ts)).
+    { exists tys. split; [exact Ht|]. eapply Forall2_imp; [|exact Hys]. intros c b Hc. exact (head_keep _ _ _ _ E4 Hc (rigid_bty b)). }
+    destruct (tail_noncopy _ _ _ _ _ _ HT H) as [-> ->].
+    split; [assumption|]. split; [eapply ext_trans; [exact E2|]; eapply ext_trans; eassumption|].
+    exists (Tup ts). rewrite Hts. auto.
+  Qed.
+
+  (* ---- constant index *)
+  Lemma sound_index E e oe i isp sp :
+    sound2 E e oe -> (forall t, oe = Some t -> exists ts, t = Tup ts) ->
+    sound2 E (EIndex e (EInt (Z.of_nat i) isp) sp)
+           (match oe with Some (Tup ts) => option_map Base (nth_error ts i) | _ => None end).
+  Proof.
+    intros Se Te f ctx s r s' W HI H. destruct f as [|f]; [discriminate|]. apply expr_inv in H. unfold expr_body in H.
+    apply bind_inv in H as ([er ex] & s1 & H1 & H). cbv beta iota in H1.
+    apply bind_inv in H1 as ([vret v] & sa & Hv & H1).
+    destruct (Se _ _ _ _ _ W HI Hv) as (Wa & Ea & (t & -> & Hvt)). cbn [snd] in Hvt. destruct (Te _ eq_refl) as [ts ->].
+    apply bind_inv in H1 as ([iret i0] & sb & Hi & H1).
+    destruct (lit_spec kinds G f (EInt (Z.of_nat i) isp) HInt ctx sa _ sb eq_refl eq_refl Wa Hi) as (Wb & Eb & _).
+    apply bind_inv_pres0 in H1 as (int_t & s2 & _ & W2 & E2 & H1); [|apply pres_push|assumption].
+    apply bind_inv_pres0 in H1 as (u3 & s3 & _ & W3 & E3 & H1); [|apply (TcInv.pres_unify G PG)|assumption].
+    apply bind_inv_pres0 in H1 as (ex0 & s4 & _ & W4 & E4 & H1); [|apply pres_push|assumption].
+    apply bind_inv in H1 as (u5 & s5 & H5 & H1).
+    destruct (add_constraint_spec _ _ _ _ _ W4 H5) as (W5 & E5 & _ & _ & C5 & _).
+    apply bind_inv in H1 as (u6 & s6 & H6 & H1).
+    destruct (check_ok_con _ _ _ _ _ _ W5 C5 H6) as (g' & s7 & s8 & W7 & E7 & Hc & W8 & E8 & W6 & E86).
+    apply bind_inv_pres0 in H1 as (u9 & s9 & _ & W9 & E9 & H1); [|apply (gp_check G PG)|assumption].
+    apply bind_inv in H1 as (r' & s10 & H10 & H1). injection H1 as <- <- <-.
+    assert (P10 : pres (unify_option G sp vret iret)) by prs. destruct (P10 _ _ _ W9 H10) as [W10 E10].
+    (* the constraint: the indexed component and the result are one class *)
+    assert (Ea7 : ext sa s7).
+    { eapply ext_trans; [exact Eb|]. eapply ext_trans; [exact E2|]. eapply ext_trans; [exact E3|]. eapply ext_trans; [exact E4|].
+      eapply ext_trans; [exact E5|exact E7]. }
+    destruct (has_ty_ext _ _ _ _ Ea7 Hvt) as (ys & Hh7 & Hys7).
+    cbn [check_one] in Hc. unfold constant_index in Hc.
+    rewrite (bind_ok _ _ _ _ _ (find_type_ok _ _ _ Hh7)) in Hc.
+    assert (Z.ltb (Z.of_nat i) 0 = false) by (apply Z.ltb_ge; lia). rewrite H0, Nat2Z.id in Hc.
+    destruct (nth_error ys i) as [y|] eqn:Ey; [|discriminate].
+    apply bind_inv in Hc as (ru & s11 & Hu & Hc). injection Hc as <-.
+    destruct (Forall2_nth _ _ _ Hys7) as [Hl Hn].
+    destruct (nth_error_same_length ys ts i y Hl Ey) as [b Eb'].
+    pose proof (Hn _ _ _ Ey Eb') as Hy7.
+    destruct (unify_result_head _ _ _ _ _ _ _ W7 Hu) as (_ & E11 & _ & Heq).
+    assert (Hex : head s10 ex0 = Some (bty_head b)).
+    { eapply head_keep; [|rewrite <- Heq; exact (head_keep _ _ _ _ E11 Hy7 (rigid_bty b))|apply rigid_bty].
+      eapply ext_trans; [exact E86|]. eapply ext_trans; [exact E9|exact E10]. }
+    destruct (tail_base g _ _ _ _ _ _ Hex H) as [-> ->].
+    split; [assumption|]. split.
+    { eapply ext_trans; [exact Ea|]. eapply ext_trans; [exact Ea7|]. eapply ext_trans; [exact E8|]. eapply ext_trans; [exact E86|].
+      eapply ext_trans; [exact E9|exact E10]. }
+    exists (Base b). rewrite Eb'. auto.
+  Qed.
+
+  (* ---- if over any two branches of one type *)
+  Lemma block_single2 E a oa sp sp1 f ctx s r ov s' :
+    sound2 E a oa -> wf s -> env_ok2 E s ->
+    expression_block G (afix f) sp [SStatementExpression a sp1] ctx s = Ok ((r, ov), s') ->
+    wf s' /\ ext s s' /\ exists ta v, oa = Some ta /\ ov = Some v /\ has_ty s' v ta.
+  Proof.
+    intros Sa W HI H. unfold expression_block in H. cbn [foldM last_stmt] in H.
+    apply bind_inv in H as (r1 & s1 & H1 & H).
+    apply bind_inv in H1 as (b' & s2 & H1 & Hr). injection Hr as <- <-.
+    apply bind_inv in H1 as (sr & s3 & Hs & Hu).
+    destruct f as [|f]; [discriminate|]. cbn [Tc.afix astep r_stmt] in Hs. unfold stmt_body in Hs.
+    apply bind_inv in Hs as ([r0 v0] & s4 & He & Hs). injection Hs as <- <-.
+    destruct (Sa _ _ _ _ _ W HI He) as (W4 & E4 & _).
+    assert (s2 = s4) by (destruct r0; cbn in Hu; injection Hu as _ <-; reflexivity). subst s2.
+    apply bind_inv in H as ([vret v] & s5 & He2 & H).
+    destruct (Sa _ _ _ _ _ W4 (env_ok2_ext _ _ _ W E4 HI) He2) as (W5 & E5 & (ta & -> & Hv)). cbn [snd] in Hv.
+    apply bind_inv in H as (r' & s6 & H6 & H). injection H as _ <- <-.
+    assert (P6 : pres (unify_option G sp b' vret)) by prs. destruct (P6 _ _ _ W5 H6) as [W6 E6].
+    split; [assumption|]. split; [eapply ext_trans; [exact E4|]; eapply ext_trans; eassumption|].
+    exists ta, v. repeat split. exact (has_ty_ext _ _ _ _ E6 Hv).
+  Qed.
+
+  Definition if_ty2 (oc oa ob : option ty2) : option ty2 :=
+    match oc, oa, ob with
+    | Some (Base TB), Some ta, Some tb => if ty2_eqb ta tb then Some ta else None
+    | _, _, _ => None
+    end.
+
+  Lemma sound_if2 E c a b oc oa ob sp :
+    sound2 E c oc -> (forall t, oc = Some t -> exists b0, t = Base b0) -> sound2 E a oa -> sound2 E b ob ->
+    sound2 E (EIf [IfBranch (Some c) [SStatementExpression a sp] sp; IfBranch None [SStatementExpression b sp] sp] sp)
+           (if_ty2 oc oa ob).
+  Proof.
+    intros Sc Tc Sa Sb f ctx s r s' W HI H. destruct f as [|f]; [discriminate|]. apply expr_inv in H. unfold expr_body in H.
+    apply bind_inv in H as ([er ex] & s1 & H1 & H). cbv beta iota in H1.
+    apply bind_inv in H1 as (tys & s2 & Hm & H1). cbn [mapM] in Hm.
+    apply bind_inv in Hm as ([r1 v1] & s3 & Hb1 & Hm). unfold if_branch in Hb1.
+    apply bind_inv in Hb1 as (cret & s4 & Hc & Hb1).
+    apply bind_inv in Hc as ([cr ct] & s5 & Hce & Hc).
+    destruct (Sc _ _ _ _ _ W HI Hce) as (W5 & E5 & (tc0 & -> & Hct)). cbn [snd] in Hct.
+    destruct (Tc _ eq_refl) as [tc ->]. cbn [has_ty] in Hct.
+    apply bind_inv in Hc as (bo & s6 & Hp & Hc). destruct (push_spec _ _ _ _ W5 Hp) as (W6 & E6 & Hbo).
+    apply bind_inv in Hc as (u7 & s7 & H7 & Hc). injection Hc as <- <-.
+    destruct (unify_result_head _ _ _ _ _ _ _ W6 H7) as (W7 & E7 & _ & _).
+    assert (Tcb : tc = TB).
+    { destruct (bty_eqb TB tc) eqn:Eq; [symmetry; now apply bty_eqb_eq|]. exfalso.
+      eapply (unify_rejects g _ bo ct s6 HBool (bty_head tc) W6 Hbo); eauto using rigid_known, rigid_bty.
+      - eapply head_keep; [exact E6|exact Hct|apply rigid_bty].
+      - rewrite <- (shape_bty TB tc) in Eq. exact Eq. }
+    subst tc.
+    assert (I7 : env_ok2 E s7)
+      by (eapply env_ok2_ext; [exact W| |exact HI]; eapply ext_trans; [exact E5|]; eapply ext_trans; [exact E6|exact E7]).
+    apply bind_inv in Hb1 as ([bret bval] & s8 & Hblk & Hb1).
+    destruct (block_single2 _ _ _ _ _ _ _ _ _ _ _ Sa W7 I7 Hblk) as (W8 & E8 & (ta & va & -> & -> & Hva)).
+    apply bind_inv in Hb1 as (ru & s9 & H9 & Hb1). injection Hb1 as <- <- <-.
+    assert (P9 : pres (unify_option G sp cr bret)) by prs. destruct (P9 _ _ _ W8 H9) as [W9 E9].
+    assert (I9 : env_ok2 E s9) by (eapply env_ok2_ext; [exact W7| |exact I7]; eapply ext_trans; [exact E8|exact E9]).
+    apply bind_inv in Hm as (ys & s10 & Hm & Hr). injection Hr as <- <-.
+    apply bind_inv in Hm as ([r2 v2] & s11 & Hb2 & Hm). apply bind_inv in Hm as (ys' & s12 & Hn & Hm).
+    injection Hn as <- <-. injection Hm as <- <-.
+    unfold if_branch in Hb2. rewrite (bind_ok (ret None) _ s9 None s9 eq_refl) in Hb2.
+    apply bind_inv in Hb2 as ([bret2 bval2] & s13 & Hblk2 & Hb2).
+    destruct (block_single2 _ _ _ _ _ _ _ _ _ _ _ Sb W9 I9 Hblk2) as (W13 & E13 & (tb & vb & -> & -> & Hvb)).
+    apply bind_inv in Hb2 as (ru2 & s14 & H14 & Hb2). injection Hb2 as <- <- <-.
+    assert (P14 : pres (unify_option G sp None bret2)) by prs. destruct (P14 _ _ _ W13 H14) as [W14 E14].
+    cbn [last_branch] in H1.
+    apply bind_inv in H1 as (rr & s15 & Hfr & H1).
+    assert (Pfr : pres (foldM (fun (acc : option tyid) (b0 : option tyid * option tyid) => unify_option G sp (fst b0) acc)
+                              [(ru, Some va); (ru2, Some vb)] None)) by prs.
+    destruct (Pfr _ _ _ W14 Hfr) as [W15 E15].
+    apply bind_inv in H1 as (value & s16 & Hfv & H1). cbn [foldM fst snd unify_option] in Hfv.
+    rewrite (bind_ok (ret (Some va)) _ s15 (Some va) s15 eq_refl) in Hfv.
+    apply bind_inv in Hfv as (b'' & s17 & Hu & Hfv). injection Hfv as <- <-.
+    apply bind_inv in Hu as (u & s18 & Hu & Hr). injection Hr as <- <-.
+    assert (Hva15 : has_ty s15 va ta).
+    { eapply has_ty_ext; [|exact Hva]. eapply ext_trans; [exact E9|]. eapply ext_trans; [exact E13|].
+      eapply ext_trans; [exact E14|exact E15]. }
+    assert (Hvb15 : has_ty s15 vb tb) by (eapply has_ty_ext; [|exact Hvb]; eapply ext_trans; [exact E14|exact E15]).
+    destruct (unify_has_ty g sp vb va s15 u s18 tb ta W15 Hu Hvb15 Hva15) as (W18 & E18 & Eq & Hu18). subst tb.
+    (* no branch falls through: both end in an expression statement *)
+    cbn [existsb if_falls falls_through last_stmt orb] in H1.
+    rewrite (bind_ok (ret (Some u)) _ s18 (Some u) s18 eq_refl) in H1.
+    apply bind_inv in H1 as (v & s19 & Hv & H1). cbn [value_or_ret] in Hv. injection Hv as <- <-. injection H1 as <- <- <-.
+    destruct (tail_noncopy _ _ _ _ _ _ Hu18 H) as [-> ->].
+    split; [assumption|]. split.
+    { eapply ext_trans; [exact E5|]. eapply ext_trans; [exact E6|]. eapply ext_trans; [exact E7|].
+      eapply ext_trans; [exact E8|]. eapply ext_trans; [exact E9|]. eapply ext_trans; [exact E13|].
+      eapply ext_trans; [exact E14|]. eapply ext_trans; [exact E15|exact E18]. }
+    exists ta. split; [|assumption]. cbn [if_ty2]. rewrite ty2_eqb_refl. reflexivity.
+  Qed.
+End Accepted2.
+
+Section Main2.
+  Variable kinds : PositiveMap.t varkind.
+  Variable g : nat.
+  Notation G := (gfix g).
+  Notation afix := (afix kinds G).
+  Let PG : gpres G := gfix_pres g.
+  Let PA f : apres (afix f) := afix_pres kinds G PG f.
+  Notation S2 E := (sound2 kinds g E).
+  Notation SE E := (sound_expr kinds g (env_ok2 E)).
+
+  Lemma all_some_go E es ts :
+    all_some (map (fun x => proj (ty2of E x)) es) = Some ts ->
+    (fix go l := match l with
+                 | [] => Some []
+                 | x :: r => match ty2of E x, go r with Some (Base t), Some ts => Some (t :: ts) | _, _ => None end
+                 end) es = Some ts.
+  Proof.
+    revert ts. induction es as [|x es IH]; intros ts H; cbn [map all_some] in H; [exact H|].
+    destruct (ty2of E x) as [[t|]|]; cbn [proj] in H; try discriminate.
+    destruct (all_some (map (fun x0 => proj (ty2of E x0)) es)) as [ts'|]; [|discriminate]. injection H as <-.
+    rewrite (IH _ eq_refl). reflexivity.
+  Qed.
+
+  Theorem accepted_typed2 E sp : forall e sh, shp (shapes E) e = Some sh -> S2 E (to_expr2 sp e) (ty2of E e).
+  Proof.
+    pose proof (env_ok2_ext E) as IE.
+    fix IH 1. intros e sh Hs.
+    assert (DN : forall a, shp (shapes E) a = Some SB -> S2 E (to_expr2 sp a) (ty2of E a) -> SE E (to_expr2 sp a) (proj (ty2of E a))).
+    { intros a Ha Sa. apply down; [|exact Sa]. intros t Ht. exact (base_of_shape E a t Ha Ht). }
+    destruct e as [z|x|s|b|op a b|op a|c a b|x|es|e i]; cbn [to_expr2 ty2of shp] in *.
+    - exact (up kinds g E (EInt z sp) (Some TI) (sound_lit kinds g _ (EInt z sp) TI eq_refl)).
+    - exact (up kinds g E (EFloat x sp) (Some TF) (sound_lit kinds g _ (EFloat x sp) TF eq_refl)).
+    - exact (up kinds g E (EStr s sp) (Some TS) (sound_lit kinds g _ (EStr s sp) TS eq_refl)).
+    - exact (up kinds g E (EBool b sp) (Some TB) (sound_lit kinds g _ (EBool b sp) TB eq_refl)).
+    - (* binary operators *)
+      destruct (shp (shapes E) a) as [[|n]|] eqn:Ha; try (destruct op; discriminate);
+        destruct (shp (shapes E) b) as [[|m]|] eqn:Hb; try (destruct op; discriminate).
+      + (* base operands *)
+        pose proof (DN a Ha (IH a _ Ha)) as Sa. pose proof (DN b Hb (IH b _ Hb)) as Sb.
+        assert (Sop : SE E (EBinOp op (to_expr2 sp a) (to_expr2 sp b) sp) (lift2 (bin_ty op) (proj (ty2of E a)) (proj (ty2of E b)))).
+        { destruct op; try discriminate.
+          - apply (sound_equ kinds g _ IE); auto.
+          - apply (sound_equ kinds g _ IE); auto.
+          - apply (sound_cmp kinds g _ IE); auto.
+          - apply (sound_cmpequ kinds g _ IE); auto.
+          - apply (sound_cmp kinds g _ IE); auto.
+          - apply (sound_cmpequ kinds g _ IE); auto.
+          - apply (sound_equ kinds g _ IE); auto.
+          - apply (sound_arith kinds g _ IE Add AAdd); auto.
+          - apply (sound_arith kinds g _ IE Sub ASub); auto.
+          - apply (sound_arith kinds g _ IE Mul AMul); auto 6.
+          - apply (sound_andor kinds g _ IE); auto.
+          - apply (sound_andor kinds g _ IE); auto. }
+        eapply sound2_weaken; [|exact (up kinds g E _ _ Sop)].
+        intros t. destruct (ty2of E a) as [[ta|]|], (ty2of E b) as [[tb|]|]; cbn; try discriminate; auto.
+      + (* tuples *)
+        assert (Hc : cmp_like op = true /\ Nat.eqb n m = true).
+        { destruct op; try discriminate; destruct (Nat.eqb n m); cbn in Hs; try discriminate; auto. }
+        destruct Hc as [Hc _].
+        apply (sound_tuple_cmp kinds g E op _ _ _ _ sp Hc (IH a _ Ha) (IH b _ Hb)).
+        * intros t Ht. exact (tup_of_shape E a n t Ha Ht).
+        * intros t Ht. exact (tup_of_shape E b m t Hb Ht).
+    - (* unary operators *)
+      destruct (shp (shapes E) a) as [[|n]|] eqn:Ha; try discriminate.
+      pose proof (DN a Ha (IH a _ Ha)) as Sa.
+      assert (Sop : SE E (EUniOp op (to_expr2 sp a) sp) (match proj (ty2of E a) with Some t => un_ty op t | None => None end)).
+      { destruct op; [apply (sound_neg kinds g)|apply (sound_not kinds g)]; assumption. }
+      eapply sound2_weaken; [|exact (up kinds g E _ _ Sop)].
+      intros t. destruct (ty2of E a) as [[ta|]|]; cbn; try discriminate; auto.
+    - (* if *)
+      destruct (shp (shapes E) c) as [[|n]|] eqn:Hc; try discriminate.
+      destruct (shp (shapes E) a) as [sa|] eqn:Ha; [|discriminate]. destruct (shp (shapes E) b) as [sb|] eqn:Hb; [|discriminate].
+      apply (sound_if2 kinds g E _ _ _ _ _ _ sp (IH c _ Hc)); [|exact (IH a _ Ha)|exact (IH b _ Hb)].
+      intros t Ht. exact (base_of_shape E c t Hc Ht).
+    - (* read *)
+      rewrite shlookup_shapes in Hs. destruct (tlookup2 E x) as [t|] eqn:L; [|discriminate]. now apply sound_read2.
+    - (* tuple *)
+      rewrite to_expr2_go.
+      match type of Hs with (if ?c then _ else _) = _ => destruct c eqn:Hall end; [|discriminate].
+      assert (F : Forall2 (fun e ob => SE E e ob) (map (to_expr2 sp) es) (map (fun x => proj (ty2of E x)) es)).
+      { clear Hs. induction es as [|x es IHes]; cbn [map]; [constructor|].
+        destruct (shp (shapes E) x) as [[|n]|] eqn:Hx; try discriminate.
+        constructor; [exact (DN x Hx (IH x _ Hx))|exact (IHes Hall)]. }
+      eapply sound2_weaken; [|exact (sound_tuple kinds g E _ _ sp F)].
+      intros t Ht. destruct (all_some (map (fun x => proj (ty2of E x)) es)) as [ts|] eqn:Ea; [|discriminate].
+      injection Ht as <-. rewrite (all_some_go E es ts Ea). reflexivity.
+    - (* index *)
+      destruct (shp (shapes E) e) as [[|n]|] eqn:He; try discriminate.
+      apply (sound_index kinds g E _ _ i sp sp (IH e _ He)). intros t Ht. exact (tup_of_shape E e n t He Ht).
+  Qed.
+
+  Lemma to_expr2_not_fn sp e {A} (k1 : list (string * N * span * ty) -> ty -> bool -> M A) (d : M A) :
+    match to_expr2 sp e with EFunction _ params rty _ pure _ => k1 params rty pure | _ => d end = d.
+  Proof. destruct e; reflexivity. Qed.
+
+  Lemma env_ok2_cons E x t s :
+    env_ok2 E s -> has_ty s (N.succ_pos x) t -> env_ok2 ((x, t) :: E) s.
+  Proof.
+    intros H Hx y ty L. cbn [tlookup2] in L. destruct (N.eqb_spec y x) as [->|N]; [injection L as <-; exact Hx|exact (H _ _ L)].
+  Qed.
+
+  Lemma accepted_stmt2 E sp st f ctx s r s' S' :
+    shp_stmt (shapes E) st = Some S' ->
+    wf s -> env_ok2 E s -> r_stmt (afix f) (to_stmt2 sp st) ctx s = Ok (r, s') ->
+    wf s' /\ ext s s' /\ exists E', ty_stmt2 E st = Some E' /\ env_ok2 E' s' /\ S' = shapes E'.
+  Proof.
+    intros Hf W HI H. destruct (ap_stmt _ (PA f) _ _ _ _ _ W H) as [W' X']. split; [assumption|]. split; [assumption|].
+    destruct f as [|f]; [discriminate|]. cbn [Tc.afix astep r_stmt] in H.
+    destruct st as [x k e|x e|e]; cbn [ty_stmt2 shp_stmt to_stmt2] in *.
+    - destruct (shp (shapes E) e) as [sh|] eqn:Hs; [|discriminate]. injection Hf as <-.
+      unfold stmt_body, definition in H. destruct (inside_pure ctx && negb (immutable k)); [discriminate|].
+      apply bind_inv in H as (vt & s0 & Hv & Hd). apply ShapesDecl_var_ty_inv in Hv as [-> ->].
+      rewrite to_expr2_not_fn in Hd. rewrite (bind_ok (ret tt) _ s tt s eq_refl) in Hd.
+      apply bind_inv_pres0 in Hd as (dt & s2 & Hr & W2 & E2 & Hd); [|apply pres_resolve_type, PA|assumption].
+      apply bind_inv_pres0 in Hd as (u3 & s3 & Hc & W3 & E3 & Hd); [|apply pres_add_constraint|assumption].
+      apply bind_inv_pres0 in Hd as (u4 & s4 & Hu & W4 & E4 & Hd); [|apply (TcInv.pres_unify G PG)|assumption].
+      apply bind_inv in Hd as ([vr vty] & s5 & He & Hd).
+      assert (E04 : ext s s4) by (eapply ext_trans; [exact E2|]; eapply ext_trans; [exact E3|exact E4]).
+      destruct (accepted_typed2 E sp e sh Hs _ _ _ _ _ W4 (env_ok2_ext _ _ _ W E04 HI) He) as (W5 & E5 & (t & Ety & Hvty)).
+      cbn [snd] in Hvty. rewrite Ety.
+      apply bind_inv in Hd as (u6 & s6 & Hu6 & Hd). injection Hd as _ <-.
+      destruct (unify_result_head _ _ _ _ _ _ _ W5 Hu6) as (W6 & E6 & _ & Heq6).
+      exists ((x, t) :: E). split; [reflexivity|]. split.
+      + apply env_ok2_cons.
+        * eapply env_ok2_ext; [exact W| |exact HI]. eapply ext_trans; [exact E04|]. eapply ext_trans; [exact E5|exact E6].
+        * apply (has_ty_head _ _ _ _ (eq_sym Heq6)). exact (has_ty_ext _ _ _ _ E6 Hvty).
+      + cbn [shapes map fst snd]. rewrite (shape_ty E e sh t Hs Ety). reflexivity.
+    - destruct (shp (shapes E) e) as [sa|] eqn:Hs; [|discriminate]. destruct (shlookup (shapes E) x) as [sx|] eqn:Hx; [|discriminate].
+      destruct (shape_eqb sa sx); [|discriminate]. injection Hf as <-.
+      rewrite shlookup_shapes in Hx. destruct (tlookup2 E x) as [tx|] eqn:Lx; [|discriminate].
+      unfold stmt_body in H.
+      apply bind_inv in H as (u0 & s0 & Hca & H).
+      assert (s0 = s).
+      { unfold can_assign in Hca. apply bind_inv in Hca as (kd & sk & Hk & Hca).
+        assert (sk = s) by (unfold var_kind in Hk; destruct (PositiveMap.find _ kinds); [now injection Hk|discriminate]).
+        subst sk. destruct (immutable kd); [discriminate|]. now injection Hca. }
+      subst s0. destruct (inside_pure ctx); [discriminate|].
+      apply bind_inv in H as ([er ety] & s1 & He & H).
+      destruct (accepted_typed2 E sp e sa Hs _ _ _ _ _ W HI He) as (W1 & E1 & (t & Ety & Hety)). cbn [snd] in Hety. rewrite Ety.
+      apply bind_inv in H as ([tr tty] & s2 & Ht & H).
+      destruct (sound_read2 kinds g E x tx sp Lx _ _ _ _ _ W1 (env_ok2_ext _ _ _ W E1 HI) Ht) as (W2 & E2 & (t' & Et' & Htty)).
+      injection Et' as <-. cbn [snd] in Htty.
+      rewrite (bind_ok (ret tt) _ s2 tt s2 eq_refl) in H.
+      apply bind_inv in H as (u3 & s3 & Hu & H).
+      apply bind_inv in Hu as (u4 & s4 & Hu & _).
+      destruct (unify_has_ty g sp ety tty s2 u4 s4 t tx W2 Hu (has_ty_ext _ _ _ _ E2 Hety) Htty) as (_ & _ & Eq & _). subst tx.
+      rewrite ty2_eqb_refl. exists E. split; [reflexivity|]. split; [exact (env_ok2_ext _ _ _ W X' HI)|reflexivity].
+    - destruct (shp (shapes E) e) as [sa|] eqn:Hs; [|discriminate]. injection Hf as <-.
+      unfold stmt_body in H. apply bind_inv in H as ([er ety] & s1 & He & H). injection H as _ <-.
+      destruct (accepted_typed2 E sp e sa Hs _ _ _ _ _ W HI He) as (W1 & E1 & (t & Ety & _)). rewrite Ety.
+      exists E. split; [reflexivity|]. split; [exact (env_ok2_ext _ _ _ W X' HI)|reflexivity].
+  Qed.
+
+  Lemma accepted_stmts2 sp f ctx : forall ss E e acc s r s',
+    frag2 (shapes E) ss e = true -> wf s -> env_ok2 E s ->
+    foldM (fun (acc : option tyid) (st : stmt) => sr <- r_stmt (afix f) st ctx ;; unify_option G sp acc sr)
+          (to_block2 sp ss e) acc s = Ok (r, s') ->
+    wf s' /\ ext s s' /\ exists E' sh, ty_stmts2 E ss = Some E' /\ env_ok2 E' s' /\ shp (shapes E') e = Some sh.
+  Proof.
+    induction ss as [|st ss IH]; intros E e acc s r s' Hf W HI H; unfold to_block2 in H; cbn [map app foldM frag2] in *.
+    - apply bind_inv in H as (acc1 & s1 & H1 & H). injection H as <- <-.
+      assert (P : pres (sr <- r_stmt (afix f) (SStatementExpression (to_expr2 sp e) sp) ctx ;; unify_option G sp acc sr))
+        by (pose proof PG; pose proof (PA f); prs).
+      destruct (P _ _ _ W H1) as [W1 E1]. split; [assumption|]. split; [assumption|].
+      destruct (shp (shapes E) e) as [sh|] eqn:Hs; [|discriminate].
+      exists E, sh. split; [reflexivity|]. split; [exact (env_ok2_ext _ _ _ W E1 HI)|exact Hs].
+    - destruct (shp_stmt (shapes E) st) as [S'|] eqn:Hst; [|discriminate].
+      apply bind_inv in H as (acc1 & s1 & H1 & H).
+      apply bind_inv in H1 as (sr & s2 & Hs & Hu).
+      destruct (accepted_stmt2 E sp st f ctx s sr s2 S' Hst W HI Hs) as (W2 & E2 & (E1 & Ty1 & EO1 & ->)).
+      assert (Pu : pres (unify_option G sp acc sr)) by (pose proof PG; prs).
+      destruct (Pu _ _ _ W2 Hu) as [W1 X1].
+      destruct (IH E1 e acc1 s1 r s' Hf W1 (env_ok2_ext _ _ _ W2 X1 EO1) H) as (W' & X' & (E' & sh & Tys & EO' & Hfe)).
+      split; [assumption|]. split; [eapply ext_trans; [exact E2|]; eapply ext_trans; eassumption|].
+      exists E', sh. cbn [ty_stmts2]. rewrite Ty1. auto.
+  Qed.
+
+  Theorem accepted_block2 sp ss e f ctx s r ov s' :
+    frag2 [] ss e = true -> wf s ->
+    expression_block G (afix f) sp (to_block2 sp ss e) ctx s = Ok ((r, ov), s') ->
+    exists t v, ty_block2 [] ss e = Some t /\ ov = Some v /\ has_ty s' v t.
+  Proof.
+    intros Hf W H. unfold expression_block in H.
+    apply bind_inv in H as (r1 & s1 & H1 & H).
+    assert (EO : env_ok2 [] s) by (intros x t L; discriminate).
+    destruct (accepted_stmts2 sp f ctx ss [] e None s r1 s1 Hf W EO H1) as (W1 & E1 & (E' & sh & Tys & EO' & Hfe)).
+    unfold to_block2 in H. rewrite last_stmt_snoc in H.
+    apply bind_inv in H as ([vret v] & s2 & He & H).
+    destruct (accepted_typed2 E' sp e sh Hfe _ _ _ _ _ W1 EO' He) as (W2 & E2 & (t & Ety & Hv)). cbn [snd] in Hv.
+    apply bind_inv in H as (r' & s3 & Hu & H). injection H as <- <- <-.
+    assert (Pu : pres (unify_option G sp r1 vret)) by (pose proof PG; prs).
+    destruct (Pu _ _ _ W2 Hu) as [W3 E3].
+    exists t, v. unfold ty_block2. rewrite Tys. split; [exact Ety|]. split; [reflexivity|]. exact (has_ty_ext _ _ _ _ E3 Hv).
+  Qed.
+End Main2.
+
+(* ================================================================== C02_E2 *)
+
+(* If the type checker accepts a block of the tuple fragment, the tagged evaluator does not get stuck on it: it returns
+   a value (a base value or a tuple of base values) whose tag -- a base type, or the list of the components' base types --
+   is the type the class of the block's value has in the type graph. *)
+Theorem C02_E2 : forall farith fneg fcmp of_int scmp kinds g f ctx sp ss (e : e2) s r ov s',
+  frag2 [] ss e = true -> wf s ->
+  expression_block (gfix g) (afix kinds (gfix g) f) sp (to_block2 sp ss e) ctx s = Ok ((r, ov), s') ->
+  exists v t c, run2 farith fneg fcmp of_int scmp [] ss e = Some v /\ tag2 v = t /\ ov = Some c /\ has_ty s' c t.
+Proof.
+  intros farith fneg fcmp of_int scmp kinds g f ctx sp ss e s r ov s' Hf W H.
+  destruct (accepted_block2 kinds g sp ss e f ctx s r ov s' Hf W H) as (t & c & Ty & -> & Hh).
+  assert (SO : store_ok2 [] []) by (intros x tx L; discriminate).
+  destruct (typed_run2 farith fneg fcmp of_int scmp ss [] [] e t SO Ty) as (v & Hv & Tv).
+  exists v, t, c. auto.
+Qed.
